@@ -523,7 +523,7 @@ static Verdict check_case(PropId prop, const GCase& c, Stats& st)
             vj::Value s = vj::Value::object(); s.set("grammar", g.show()); s.set("template", c.tmpl == 0 ? "T36s" : "T20s"); s.set("inputs", (unsigned long long)c.inputs.size());
             s.set("accepted", (unsigned long long)acc); s.set("rejected", (unsigned long long)rej); s.set("nontrivial_inputs", (unsigned long long)interesting);
             s.set("lr1_states", (unsigned long long)T.states.size());
-            s.set("example_input", c.inputs.empty() ? std::string() : c.inputs.back().text);
+            s.set("example_input", c.inputs.empty() ? std::string() : c.inputs[c.inputs.size() / 2].text.substr(0, 300));
             st.sample(s);
         }
     }
@@ -945,7 +945,7 @@ static int emit_cases(const eng::Args& a)
         for (int k = 0; k < 3 && !keep.empty(); ++k) { gg::Input in = keep[rng.below(uint32_t(keep.size()))]; in.text.insert(in.text.begin() + rng.below(uint32_t(in.text.size() + 1)), "z!@"[rng.below(3)]); add(in); }
         for (int k = 0; k < 2 && !keep.empty(); ++k) { gg::Input in = keep[rng.below(uint32_t(keep.size()))]; if (rng.chance(1, 2)) in.skip_nl = false; else in.skip_ws = false; in.text += rng.chance(1, 2) ? "\n a" : " b"; keep.push_back(in); }
         // half of the cases: real term kinds. Inputs are re-rendered with the spellings; the reference re-tokenises the new text.
-        bool spelled = (ch.chance(1, 2) || getenv("EMIT_NAMED_TERMS")) && !getenv("EMIT_NO_SPELLING");
+        bool spelled = (ch.chance(1, 2) || getenv("EMIT_NAMED_TERMS") || getenv("EMIT_ALWAYS_SPELLED")) && !getenv("EMIT_NO_SPELLING");
         SpellTable spell; if (spelled) spell = make_spelling(ch);
         auto tname = [&](int t) -> std::string { if (t == g.eof()) return "<eof>"; if (t == g.err()) return "<error_recovery_token>"; return spelled ? spell.sp[size_t(t)].name : g.tname(t); };
         if (spelled)
